@@ -212,7 +212,7 @@ class Contract:
                  result=None, loops=None, canaries=None, inline=False, hints=None, notes='',
                  modular_raises=None, properties=(), native_call=None, frame=None, local_models=None,
                  native_oracle=None, expr_contracts=None, exc_ensures=None, skeleton=False, modular_effect=None, arg_pins=None,
-                 decreases=None, globals_spec=None):
+                 decreases=None, globals_spec=None, entry_cut=None):
         self.qualname = qualname
         self.params = params or {}
         #: list of (label, {param: Spec}) overriding `params`; each case is explored separately
@@ -247,6 +247,10 @@ class Contract:
         self.decreases = decreases
         #: dotted module attribute -> Spec: mutable module state the function reads / rebinds (ghost store, one value per path)
         self.globals_spec = globals_spec or {}
+        #: block contract: dict(first_assigns=<local name>, state=f(ctx, args) -> {local: model value}, doc=<the ASSUMED mid-condition>):
+        #: the function is verified from the first top-level statement that assigns `first_assigns`; the statements before it are NOT
+        #: verified -- they are replaced by the assumed mid-condition `state` (reported as an unchecked assumption in the evidence)
+        self.entry_cut = entry_cut
         #: local name -> factory of a typed model for `name = []` (an empty list literal carries no element type)
         self.local_models = local_models or {}
 
